@@ -5,11 +5,15 @@
   (operon_ai/surveillance/innate.py:77-81), which are the same code:
 
       if self.is_regex and self._compiled:  return bool(self._compiled.search(content))
-      return self.pattern.lower() in content.lower()
+      return self.pattern.casefold() in content.casefold()
+
+  (`casefold()` since the `fix:` commit dc1025f; `lower()` before — `str.lower` is context sensitive for a word-final
+  capital sigma and `'ß'.upper().lower() != 'ß'`, which broke the embedding and the case-change clause.)
 
   Strings are lists of code points.  What is *not* operon's code is an environment `Env`:
-    * `lower`   — `str.lower` on one code point (the model lowers char-wise; CPython does so for every
-                  code point except U+0130 and a word-final U+03A3);
+    * `lower`   — `str.casefold` on one code point: full case folding, which Unicode (and CPython's
+                  `unicode_casefold`) defines code point by code point, a code point possibly folding to several
+                  (`'ß' -> 'ss'`, `'İ' -> 'i̇'`); so folding a string is `flatMap` — any such map is allowed;
     * `rx p c`  — `bool(re.compile(p, re.IGNORECASE).search(c))`;
     * `compiles p` — whether `re.compile(p, re.IGNORECASE)` succeeds;
     * `json c`  — the outcome of `json.loads(c)` (used by the innate JSON validator only).
@@ -38,17 +42,17 @@ inductive JsonOut where
   deriving Repr
 
 structure Env where
-  lower : Nat → Nat
+  lower : Nat → Str
   rx : Str → Str → Bool
   compiles : Str → Bool
   json : Str → JsonOut
 
-/-- `str.lower()` as the model sees it: char-wise -/
-def lowerS (env : Env) (s : Str) : Str := s.map env.lower
+/-- `str.casefold()`: every code point replaced by its folding -/
+def lowerS (env : Env) (s : Str) : Str := s.flatMap env.lower
 
-/-- `lowerStd` : the concrete lowering used by the driver — ASCII, Latin-1, basic Greek and basic Cyrillic
-    capitals; identity elsewhere.  The harness compares it with `str.lower` on every code point and keeps
-    generated text inside the set where both agree. -/
+/-- `lowerStd` / `foldStd` : the concrete folding used by the driver — ASCII, Latin-1, basic Greek and basic
+    Cyrillic capitals, sharp s and final sigma; identity elsewhere.  The harness compares `foldStd` with
+    `str.casefold` on every code point and keeps generated text inside the set where both agree. -/
 def lowerStd (c : Nat) : Nat :=
   if 0x41 ≤ c ∧ c ≤ 0x5A then c + 32
   else if 0xC0 ≤ c ∧ c ≤ 0xDE ∧ c ≠ 0xD7 then c + 32
@@ -56,6 +60,9 @@ def lowerStd (c : Nat) : Nat :=
   else if 0x410 ≤ c ∧ c ≤ 0x42F then c + 32
   else if 0x400 ≤ c ∧ c ≤ 0x40F then c + 80
   else c
+
+def foldStd (c : Nat) : Str :=
+  if c = 0xDF then [0x73, 0x73] else if c = 0x3C2 then [0x3C3] else [lowerStd c]
 
 /-- `p` is a prefix of `c` -/
 def isPrefix : Str → Str → Bool
